@@ -60,7 +60,13 @@ def run(ctx, repo, tier):
     where = gen.where
     # per-frame placement may live in a private helper (method, module-level or nested function): analyse the spliced generator
     from ..model import FunctionInfo as _FI0, set_parents as _sp0
-    _spl = splice_self_calls(pci, gen.node, module=pci.module)
+    def _moves_atoms(fn_node):
+        """helpers that place the molecule (they call rotate / translate or assign positions); pure converters are left as calls"""
+        return any((isinstance(x, ast.Call) and isinstance(x.func, ast.Attribute) and x.func.attr in MUTATORS) or
+                   (isinstance(x, (ast.Assign, ast.AugAssign)) and any(isinstance(t_, ast.Attribute) and t_.attr == "positions"
+                                                                        for t_ in (x.targets if isinstance(x, ast.Assign) else [x.target])))
+                   for x in ast.walk(fn_node))
+    _spl = splice_self_calls(pci, gen.node, module=pci.module, accept=_moves_atoms)
     _sp0(_spl)
     for c_ in ast.walk(gen.node):
         if isinstance(c_, ast.Call) and isinstance(c_.func, ast.Name) and pci.module.functions.get(c_.func.id) is not None:
